@@ -21,6 +21,7 @@ import os
 import re
 import subprocess
 import threading
+import time
 from concurrent.futures import ThreadPoolExecutor
 
 import vlib
@@ -36,16 +37,44 @@ OPTSETS = {
 }
 TESTDIRS = {'html': 'html', 'css': 'css', 'js': 'js', 'json': 'json', 'svg': 'svg', 'xml': 'xml'}
 
-# Known finding (known/C09.txt): an escape sequence inside a JS string/template/regexp literal that the
-# JS minifier decodes so that the literal text "</script" appears inside an HTML script element.
-# Generators do not emit the construct (narrow, syntactic, on the INPUT bytes); pinned witnesses keep it visible.
+# Known findings (known/C09.txt).  Generators do not emit the narrow syntactic constructs below (matched on the
+# INPUT bytes, never on the outcome); the pinned witnesses in known/C09.ndjson keep every defect visible.
 _LT = r'(?:\\x3c|\\u003c|\\u\{0*3c\}|\\0?74)'
 _SL = r'(?:/|\\/|\\x2f|\\u002f|\\u\{0*2f\}|\\0?57)'
+# K1: an escape sequence in a JS literal that the JS minifier decodes so that "</script" appears inside an HTML script element
 KNOWN_CONSTRUCT = re.compile((_LT + _SL + r'script|<(?:\\x2f|\\u002f|\\u\{0*2f\}|\\0?57)script').encode(), re.I)
+# K2: a?.`tpl` printed for  (a===null||a===undefined)?undefined:a`tpl`   (tagged template on an optional chain is a SyntaxError)
+K_OPTCHAIN_TPL = re.compile(rb'(?:null|undefined)\s*\)?\s*\?\s*(?:undefined|void 0)\s*:[^;]*`')
+# K3: (++b)**2 is printed as ++b**2, which the minifier's own parser rejects on the second pass
+K_UPDATE_POW = re.compile(rb'\(\s*(?:\+\+|--)[^()]*\)\s*\*\*')
+# K4: under KeepVarNames an else-block is dissolved into the enclosing block although it declares the same let/const name
+K_ELSE_LET = re.compile(rb'else\s*\{\s*(?:let|const|class)\b')
+# K5: the JSON minifier accepts a document that ends right after a colon and prints it without the colon
+K_JSON_COLON = re.compile(rb':\s*\Z')
+# K6: the text of an SVG style element is handed to the CSS minifier with its entity references intact (&lt; loses its ;)
+K_SVG_STYLE_ENT = re.compile(rb'<style\b[^>]*>[^<]*&', re.I)
 
 
 def has_known_construct(b):
     return KNOWN_CONSTRUCT.search(b) is not None
+
+
+def excluded(lang, opts, b):
+    """construct tags of known findings present in an input (generator exclusion)"""
+    tags = []
+    if lang == 'html' and KNOWN_CONSTRUCT.search(b):
+        tags.append('K1')
+    if lang in ('js', 'html') and not any(w in opts for w in ('es5', 'es2015', 'es2019')) and K_OPTCHAIN_TPL.search(b):
+        tags.append('K2')
+    if lang in ('js', 'html') and K_UPDATE_POW.search(b):
+        tags.append('K3')
+    if lang in ('js', 'html') and ('names' in opts or 'keep' in opts) and K_ELSE_LET.search(b):
+        tags.append('K4')
+    if lang == 'json' and K_JSON_COLON.search(b):
+        tags.append('K5')
+    if lang in ('svg', 'html') and K_SVG_STYLE_ENT.search(b):
+        tags.append('K6')
+    return tags
 
 
 def sha(b):
@@ -58,11 +87,13 @@ class Cases:
         self.cases = []
         self.data = {}      # id -> bytes (for cases not backed by a repository file)
         self.seen = set()
+        self.excluded = 0
 
     def add(self, lang, opts, data=None, file=None, origin='', inline=False, adj=None, allow_known=False):
         if data is None:
             data = open(file, 'rb').read()
-        if lang == 'html' and not allow_known and has_known_construct(data):
+        if not allow_known and excluded(lang, opts, data):
+            self.excluded += 1
             return None
         k = (lang, opts, inline, sha(data))
         if k in self.seen:
@@ -296,12 +327,16 @@ def merge(rec, jsres, adj):
     return out
 
 
-def validate(ctx, exe, cs, ids, tag):
+def validate(ctx, exe, cs, ids, tag, workers=None):
     """run cases ids, merge, TLC; returns (lines, accepted, rejects[(pos, why)])"""
     cases = [dict(cs.cases[i], id=k) for k, i in enumerate(ids)]
-    recs, by, outdir = run_driver(ctx, exe, cases, tag)
+    t0 = time.time()
+    recs, by, outdir = run_driver(ctx, exe, cases, tag, workers)
+    vlib.log('c09 %s: %d cases driven and judged in %.1fs' % (tag, len(cases), time.time() - t0))
     lines = [merge(r, by.get(k, []), cs.data[ids[k]]['adj'] is not None) for k, r in enumerate(recs)]
+    t0 = time.time()
     accepted, rejects = vlib.tlc_trace(ctx, 'C09Trace', 'C09Trace.cfg', lines, min_per_shard=400)
+    vlib.log('c09 %s: TLC validated %d records in %.1fs (%d rejections)' % (tag, len(lines), time.time() - t0, len(rejects)))
     return lines, accepted, rejects, outdir
 
 
@@ -383,10 +418,12 @@ def run(ctx):
     big = collections.defaultdict(list)
     for lang, path, origin in docs:
         b = neutralize(open(path, 'rb').read()) if lang == 'html' else open(path, 'rb').read()
+        if excluded(lang, 'default', b):
+            continue
         (pools if len(b) <= 20000 else big)[lang].append(b)
     for lang in LANGS:
         for b, origin in tests[lang]:
-            if not (lang == 'html' and has_known_construct(b)):
+            if not excluded(lang, 'names', b):
                 pools[lang].append(b)
     nmut = 2400 if quick else 40000
     for k in range(nmut):
@@ -413,7 +450,9 @@ def run(ctx):
         cs.add(lang, 'default', data=m, origin='mutbig:' + op)
 
     # (d) adjacency programs of JsLexAdj
+    vlib.log('c09: %d cases prepared in %.1fs' % (len(cs.cases), time.time() - ctx.t0))
     th.join()
+    vlib.log('c09: model checking done at %.1fs' % (time.time() - ctx.t0))
     if mc_err:
         raise mc_err[0]
     cls = adj_classes()
@@ -441,6 +480,7 @@ def run(ctx):
         if len(p) <= 4 and b'/script' not in src and (not quick or rnd.random() < 0.25):
             cs.add('html', 'default', data=b'<script>x=' + src + b';</script>', origin='adj-host:' + '.'.join(cls[c - 1][0] for c in p))
     ctx.coverage['adjacency_programs'] = nadj
+    ctx.coverage['generator_exclusions_applied'] = cs.excluded
 
     # (f) pinned witnesses of known findings
     pinned = []
@@ -484,21 +524,24 @@ def run(ctx):
         raise vlib.Infra('oracle disagreement (machinery error) on %s: %s' % (cs.cases[i]['origin'], why[i]))
     bad = sorted(why)
     reproduced = 0
-    for i in bad[:300]:
-        l1, a1, r1, _ = validate(ctx, exe, cs, [i], 'rerun%d' % i)
-        if not r1:
-            continue
-        reproduced += 1
-        rec = l1[0]
-        w1 = [w for _, w in r1]
-        c = cs.cases[i]
-        data = open(c['file'], 'rb').read()
-        detail = dict(record={k: v for k, v in rec.items() if k not in ('in', 'out', 'paths0', 'paths1')},
-                      origin=c['origin'], input_b64=base64.b64encode(data).decode() if len(data) <= 4 << 20 else None,
-                      input_file=c['file'] if c['file'].startswith(vlib.REPO) else None)
-        ctx.report(cs.ident(i), describe(cs, i, rec, w1), detail)
-    if len(bad) > 300:
-        raise vlib.Infra('%d rejected records; only the first 300 were re-run' % len(bad))
+    if bad:
+        sub = bad[:400]
+        l1, a1, r1, _ = validate(ctx, exe, cs, sub, 'rerun', workers=1)
+        w1 = collections.defaultdict(list)
+        for pos, w in r1:
+            w1[pos].append(w)
+        for pos in sorted(w1):
+            i = sub[pos]
+            reproduced += 1
+            rec = l1[pos]
+            c = cs.cases[i]
+            data = open(c['file'], 'rb').read()
+            detail = dict(record={k: v for k, v in rec.items() if k not in ('in', 'out', 'paths0', 'paths1')},
+                          origin=c['origin'], input_b64=base64.b64encode(data).decode() if len(data) <= 4 << 20 else None,
+                          input_file=c['file'] if c['file'].startswith(vlib.REPO) else None)
+            ctx.report(cs.ident(i), describe(cs, i, rec, w1[pos]), detail)
+    if len(bad) > 400:
+        raise vlib.Infra('%d rejected records; only the first 400 were re-run' % len(bad))
     ctx.coverage['rejections'] = len(bad)
     ctx.coverage['rejections_reproduced'] = reproduced
 
